@@ -40,6 +40,9 @@ def templates(tier, seed):
         c["distinct_labels"] = c["drop"]
         tid = "P/" + "".join(arr) + "/" + "/".join(f"{k}={v}" for k, v in c.items() if k != "distinct_labels")
         ts.append(Template(tid, t_parse, (arr, N, c)))
+    for tid, fn, args in tmpl.standard_cases(tier):
+        if tid.startswith(("SP/", "DT/")):
+            ts.append(Template(tid, tmpl.pick(fn, LABELS), args))
     import tmpl_pl
 
     ts += [Template(tid, tmpl.pick(fn, LABELS), args) for tid, fn, args in tmpl_pl.parse_cases(tier)]
